@@ -101,6 +101,8 @@ def write_site_check(C):
 def build():
     C = ContractSet("C14", "Serial links: framing, integrity and command flow control")
     C.decode_may_fail = True
+    C.assume("bytes.decode() fails exactly for byte strings that are not well-formed UTF-8; which strings those are is left "
+             "open (uninterpreted predicate) except that pure ASCII always decodes - a counterexample needs a byte >= 0x80")
     C.strings = True
     C.finite_checks.append(crc_table_check)
     C.finite_checks.append(common.native_demo_check(
